@@ -319,6 +319,8 @@ pub struct Model {
     pub datums: BTreeSet<Vec<u8>>,
     pub redeemers: BTreeMap<Purpose, (Vec<u8>, u64, u64)>,
     pub lang_views: Option<BTreeMap<u8, Vec<i64>>>,
+    /// staging calls whose Ok/Err did not follow the documented limit (asset names of at most 32 bytes are accepted)
+    pub limit_slips: Vec<String>,
     pub aux: Option<Vec<u8>>,
     /// bookkeeping for classification only
     pub effective_removals: u32,
@@ -390,6 +392,10 @@ fn resolve_pol(p: &PolPick, m: &Model) -> Option<[u8; 28]> {
     }
 }
 
+thread_local! {
+    static OUTPUT_SLIPS: std::cell::RefCell<Vec<String>> = const { std::cell::RefCell::new(vec![]) };
+}
+
 fn mk_output(spec: &OutSpec) -> (Output, MOut) {
     let ab = address_bytes(spec.addr);
     let addr = pallas_addresses::Address::from_bytes(&ab).expect("harness address pool entry parses");
@@ -407,6 +413,16 @@ fn mk_output(spec: &OutSpec) -> (Output, MOut) {
             Err(_) => { /* documented: name longer than 32 bytes; output unchanged */ }
         }
     }
+    // the limit is exact: refused iff longer than 32 bytes
+    let mut slips = vec![];
+    for (p, n, amount) in &spec.assets {
+        let name = asset_name(*n);
+        let ok = Output::new(pallas_addresses::Address::from_bytes(&address_bytes(spec.addr)).unwrap(), spec.lovelace).add_asset(Hash::<28>::from(policy(*p)), name.clone(), *amount).is_ok();
+        if ok != (name.len() <= 32) {
+            slips.push(format!("add_asset with a {}-byte name: {}", name.len(), if ok { "accepted" } else { "refused" }));
+        }
+    }
+    OUTPUT_SLIPS.with(|s| s.borrow_mut().extend(slips));
     match &spec.datum {
         Some(DatumSpec::Hash(k)) => {
             out = out.set_datum_hash(Hash::<32>::from(datum_hash(*k)));
@@ -507,12 +523,16 @@ pub fn apply(ops: &[Op]) -> (StagingTransaction, Model) {
             Op::Mint { p, n, amount } => {
                 let pol = policy(*p);
                 let name = asset_name(*n);
-                match tx.clone().mint_asset(Hash::<28>::from(pol), name.clone(), *amount) {
+                let ok = match tx.clone().mint_asset(Hash::<28>::from(pol), name.clone(), *amount) {
                     Ok(t) => {
                         tx = t;
-                        *m.mint.entry((pol.to_vec(), name)).or_insert(0) += *amount;
+                        *m.mint.entry((pol.to_vec(), name.clone())).or_insert(0) += *amount;
+                        true
                     }
-                    Err(_) => { /* documented: name longer than 32 bytes */ }
+                    Err(_) => false, // documented: name longer than 32 bytes
+                };
+                if ok != (name.len() <= 32) {
+                    m.limit_slips.push(format!("mint_asset with a {}-byte name: {}", name.len(), if ok { "accepted" } else { "refused" }));
                 }
             }
             Op::MintCancel(sel) => {
@@ -1490,7 +1510,12 @@ pub fn stable_panic_sig(sig: &str) -> String {
 }
 
 pub fn check_case(s: &Session, ops: &Vec<Op>, obs: &mut Obs) -> Result<(), Fail> {
-    let (tx, m) = apply(ops);
+    OUTPUT_SLIPS.with(|s| s.borrow_mut().clear());
+    let (tx, mut m) = apply(ops);
+    OUTPUT_SLIPS.with(|s| m.limit_slips.extend(s.borrow_mut().drain(..)));
+    if let Some(slip) = m.limit_slips.first() {
+        return Err(Fail { sig: "asset-name-limit-not-exact".into(), msg: format!("{slip}; the documented limit is 32 bytes (longer names are refused, names of up to 32 bytes accepted)") });
+    }
     classify(&m, obs);
     let built = match pvkit::panics::guarded(move || tx.build_conway_raw()) {
         Err(p) => {
